@@ -6,6 +6,11 @@ def B(prop, id, file, old, new, why=''):
     BENIGN.append({'prop': prop, 'id': id, 'file': file, 'old': old, 'new': new, 'why': why})
 
 
+def BP(prop, id, patch, why=''):
+    """a multi-file behaviour-preserving edit kept as selftest/patches/<patch>"""
+    BENIGN.append({'prop': prop, 'id': id, 'patch': patch, 'why': why})
+
+
 POOLF = 'internal/mithril-resource-pool/src/resource_pool.rs'
 B('C18', 'extra-early-fullness-test', POOLF,
   """        resource.reset()?;
@@ -83,3 +88,20 @@ B('C13', 'streamer-skip-inline-condition', 'internal/cardano-node/mithril-cardan
   """                let block_streamer_next_action = if rollback_slot_number == self.from.slot_number
                     && self.last_polled_point.is_none()
                 {""", 'same condition, operands swapped, no intermediate flag')
+
+
+BP('C19', 'move-relocated-with-cleanup', 'c19-move-relocated-with-cleanup.diff',
+   'the move of the validated manifest relocated from download_unpack_verify_ancillary into build_download_future (the refactoring of seed '
+   'C19-1) but WITHOUT the early return: the temporary directory is still removed on every exit')
+
+B('C17', 'formula-checked-rem', 'mithril-common/src/entities/signed_entity_config.rs',
+  """    let adjusted_step = std::cmp::max(step, BlockNumber(1));
+    (block_number - security_parameter) / adjusted_step * adjusted_step
+}""", """    let stable_block_number = block_number - security_parameter;
+
+    // Round down to the closest multiple of the step
+    match stable_block_number.checked_rem(*step) {
+        Some(remainder) => stable_block_number - remainder,
+        None => stable_block_number,
+    }
+}""", 'the rounding written with checked_rem (the refactoring of seed C17-1) with the CORRECT fall-back for a zero step')
